@@ -27,17 +27,21 @@ Definition show_err (nf : nat) (e : err) : string :=
   | ESyntax f => "err:syntax:" ++ show_efile nf f | ENoFile => "err:nofile" | EUnres f => "err:unresolved:" ++ show_efile nf f
   | EObj f => "err:obj:" ++ show_efile nf f | EMp f => "err:mp:" ++ show_efile nf f | EFuel => "FUEL" | EMissing f => "MISSING:" ++ show_nat f
   end.
-Definition show_load (nf : nat) (c : cfg) (r : (err + nat) * state) : string :=
+(* norepo: the result has no _tx_model_repository (a string main under the RREL '+m:' provider without references:
+   load_models, which creates the repository object, is called once per reference); get_included_models is then the
+   model alone.  Loading itself is as modelled: resolution and processors range over the models under construction. *)
+Definition show_load_gen (norepo : bool) (nf : nat) (c : cfg) (r : (err + nat) * state) : string :=
   let '(res, s) := r in
   let g := if cglobal c then show_dict nf c s (allm s) else "-" in
   let rd := sjoin "," (map show_nat (reads s)) in
   match res with
-  | inr m => "ok|" ++ rd ++ "|" ++ show_tok nf c s m ++ "|" ++ sjoin ";" (map (show_model nf c s) (included m s))
-             ++ "|" ++ show_dict nf c s (allm s) ++ "|" ++ g
+  | inr m => "ok|" ++ rd ++ "|" ++ show_tok nf c s m ++ "|" ++ sjoin ";" (map (show_model nf c s) (if norepo then [m] else included m s))
+             ++ "|" ++ (if norepo then "" else show_dict nf c s (allm s)) ++ "|" ++ g
   | inl e => show_err nf e ++ "|" ++ rd ++ "|-|"
              ++ sjoin ";" (map (show_model nf c s) (if cglobal c then map snd (allm s) else [])) ++ "|-|" ++ g
   end.
 
+Definition show_load := show_load_gen false.
 Definition at_op (s : state) (i : nat) : state := mkState (heap s) (allm s) (locals s) (constr s) (targets s) (reads s) i.
 Fixpoint run_ops (c : cfg) (fs : list file) (s : state) (i : nat) (ops : list op) : list string :=
   match ops with
@@ -48,8 +52,26 @@ Fixpoint run_ops (c : cfg) (fs : list file) (s : state) (i : nat) (ops : list op
       show_load (List.length fs) c r :: run_ops c fs (snd r) (S i) t
   | OLoadStr fc :: t =>
       let r := load_str fs c fc (at_op s i) in
-      show_load (List.length fs) c r :: run_ops c fs (snd r) (S i) t
+      show_load_gen (clazy c && is_nil (frefs fc))%bool (List.length fs) c r :: run_ops c fs (snd r) (S i) t
   end.
+
+(* histories over several languages *)
+Definition show_repos (nf nl : nat) (mc : mlcfg) (s : state) (repos : list (nat * list (nat * nat))) : string :=
+  sjoin ";" (map (fun L => if lglob mc L then show_dict nf (mkCfg true false []) s (repo_of repos L) else "-") (seq 0 nl)).
+Fixpoint run_ops_ml (mc : mlcfg) (fs : list file) (ms : state * list (nat * list (nat * nat))) (i : nat) (ops : list op) : list string :=
+  match ops with
+  | [] => []
+  | OWrite f fc :: t => "w" :: run_ops_ml mc (set_nth f fc fs) ms (S i) t
+  | OLoad f :: t =>
+      let r := ml_load fs mc f (at_op (fst ms) i, snd ms) in
+      let c := mkCfg (lglob mc (lang mc f)) false [] in
+      (show_load (List.length fs) c (fst r, fst (snd r)) ++ "|" ++
+       show_repos (List.length fs) (List.length (lglobal mc)) mc (fst (snd r)) (snd (snd r)))
+      :: run_ops_ml mc fs (snd r) (S i) t
+  | OLoadStr _ :: t => "?" :: run_ops_ml mc fs ms (S i) t
+  end.
+Definition run_case_ml (lg : list bool) (lo : list nat) (fs : list file) (ops : list op) : string :=
+  sjoin " # " (run_ops_ml (mkML lg lo) fs (init_state [], []) 0 ops).
 
 Definition run_case (glob lazy : bool) (builtins : list file) (fs : list file) (ops : list op) : string :=
   sjoin " # " (run_ops (init_cfg glob lazy builtins) fs (init_state builtins) 0 ops).
@@ -61,5 +83,7 @@ Fixpoint hash_string (s : string) (h : N) : N :=
   | EmptyString => h
   | String a t => hash_string t (N.modulo (h * 1000003 + Ascii.N_of_ascii a) 1099511627776)
   end.
+Definition run_case_ml_hash (lg : list bool) (lo : list nat) (fs : list file) (ops : list op) : string :=
+  show_N (hash_string (run_case_ml lg lo fs ops) 7).
 Definition run_case_hash (glob lazy : bool) (builtins : list file) (fs : list file) (ops : list op) : string :=
   show_N (hash_string (run_case glob lazy builtins fs ops) 7).
